@@ -72,6 +72,10 @@ static void unit_fn(void *arg)
     if (arg != u->arg_given)
         u->badarg = 1;
     vh_note(UEV_START, u->idx, 0, 0);
+    /* the creator publishes the handle after the create call returns; a unit that starts on another
+     * stream at once must not use its own (or a sibling's) handle before that */
+    while (u->named == 'N' && !u->created)
+        ABT_thread_yield();
     run_ops(u);
     vh_note(UEV_FINISH, u->idx, 0, 0);
     u->finished++;
@@ -291,6 +295,11 @@ static void run_ops(unit_t *me)
                 vh_note(UEV_OPE, 'M', i, ret);
                 break;
             }
+            case 'm':
+                vh_note(UEV_OPB, 'm', i, 0);
+                ret = ABT_thread_migrate(g_u[i].h);
+                vh_note(UEV_OPE, 'm', i, ret);
+                break;
             case 'V':
                 vh_note(UEV_OPB, 'V', i, 0);
                 g_u[i].finished = 0;
